@@ -49,6 +49,9 @@ def _div(a, b):
 
 def _pow(a, b):
     a, b = _num(a), _num(b)
+    if isinstance(b, int) and (abs(b) > 48 or (isinstance(a, int) and a.bit_length() > 4096)
+                               or (isinstance(a, Fraction) and (a.numerator.bit_length() > 4096 or a.denominator.bit_length() > 4096))):
+        raise EvalError('power too large for the harness evaluator')
     if isinstance(b, int):
         if isinstance(a, int):
             if b >= 0:
